@@ -70,7 +70,8 @@ MT_T = MT_Q + [
     'application/json',
 ]
 # (spelling in a Content-Type header, raw value a header object answers, expected report)
-CHARSETS_Q = [(None, None, None), ('utf-8', 'utf-8', 'utf-8'), ('ISO-8859-1', 'ISO-8859-1', 'iso-8859-1'), ('ISO_8859-15', 'ISO_8859-15', 'iso_8859-15')]
+CHARSETS_Q = [(None, None, None), ('utf-8', 'utf-8', 'utf-8'), ('ISO-8859-1', 'ISO-8859-1', 'iso-8859-1'), ('ISO_8859-15', 'ISO_8859-15', 'iso_8859-15'),
+              ('', '', None)]  # a charset parameter without a value says nothing
 CHARSETS_T = CHARSETS_Q + [('"UTF-8"', 'UTF-8', 'utf-8'), ('us-ascii', 'us-ascii', 'us-ascii')]
 BOMS = {
     None: b'', 'utf-8': b'\xef\xbb\xbf', 'utf-16-le': b'\xff\xfe', 'utf-16-be': b'\xfe\xff',
@@ -374,6 +375,8 @@ def judge_table(case, res=None):
     if status == 'exc':
         return [('C20.total', guard.crash_site(obs), 'an EncodingInfo: ' + repr([exp['encoding'], exp['mismatch']]), repr(obs))], ('exc', type(obs).__name__)
     enc, mm, http, xml, meta = obs
+    # ("no information" is reported as None or as the empty text a value-less charset parameter consists of)
+    enc, http, meta = (None if x == '' else x for x in (enc, http, meta))
     out = []
     if res is not None:
         for c in ('C20.sources', 'C20.encoding', 'C20.mismatch', 'C20.lowercase'):
